@@ -43,8 +43,8 @@ def run(prop, repo=None):
         samples=[dict(name=r['name'], kind=r['kind'], status=r['status'], fired=r['fired']) for r in rs[:6]])
     ev['coverage']['mechanical_refactorings'] = dict(
         rewrites=len(mech), silent=len(mech) - len(mech_bad),
-        rule="every function of the property's anchored Python files rewritten three ways (all locals renamed; every "
-             "comparison flipped a<b -> b>a; every if/else and conditional expression exchanged under the negated test); "
+        rule="every function of the property's anchored Python files rewritten seven ways (all locals renamed; every "
+             "comparison flipped a<b -> b>a; every if/else and conditional expression exchanged under the negated test; else-after-return turned into a guard clause and back; return value named; `if a and b` nested); "
              "the check must stay silent on each rewritten tree",
         failures=mech_bad[:20])
     if extra:
